@@ -71,8 +71,16 @@ theorem C14_attempt_succeeded (c : Ctx) (s : St) (obs : List Obs) (d : DagRef) (
 
 /-- a default value is a value: `get_default`, then `on_node_complete(None)` -/
 theorem C14_default_reports_no_error (c : Ctx) (s : St) (obs : List Obs) (d : DagRef) (n : Node) (below : List Frame)
-    (kw : Kwargs) :
-    nodeDefault c s obs d n below kw = nodeSuccess c s (obs ++ [.dflt n kw]) d n below (c.P.dflt n kw) := rfl
+    (kw : Kwargs) (h : c.P.dfltRaise n = none) :
+    nodeDefault c s obs d n below kw = nodeSuccess c s (obs ++ [.dflt n kw]) d n below (c.P.dflt n kw) :=
+  nodeDefault_of_none c s obs d n below kw h
+
+/-- a `get_default` that raises is the node's failure: `get_default` once, then `on_node_complete(error=e)` with the
+exception it raised -/
+theorem C14_failing_default_reports_its_error (c : Ctx) (s : St) (obs : List Obs) (d : DagRef) (n : Node)
+    (below : List Frame) (kw : Kwargs) (e : Exc) (h : c.P.dfltRaise n = some e) (he : e.isException = true) :
+    nodeDefault c s obs d n below kw = nodeFail c s (obs ++ [.dflt n kw]) d n below e := by
+  simp [nodeDefault, h, he]
 
 /-- a final failure: exactly one `on_node_complete(error=e)` with the exception the node raised -/
 theorem C14_attempt_failed (c : Ctx) (s : St) (obs : List Obs) (d : DagRef) (n : Node) (below : List Frame) (e : Exc) :
